@@ -377,8 +377,19 @@ pub fn run(ctx: &mut Ctx) -> (&'static str, String, bool) {
             // a thread that encodes B only, and a thread that encodes A and then B
             let pb1 = pb.clone();
             let alone = std::thread::spawn(move || real_encode(&pb1, compressed_b)).join();
+            // (every other pair: A is serialised into a fixed buffer that is too small, so that its write fails part-way
+            // through - what an earlier failed write leaves behind must not show in B either)
+            let failing = r.chance(1, 2);
+            let room = r.usize_below(48);
             let after = std::thread::spawn(move || {
-                let _ = real_encode(&pa, compressed_a);
+                if failing {
+                    use insim_core::binrw::BinWrite;
+                    let mut small = [0u8; 48];
+                    let mut cur = std::io::Cursor::new(&mut small[..room]);
+                    let _ = guarded(|| pa.write(&mut cur).map_err(|e| e.to_string()));
+                } else {
+                    let _ = real_encode(&pa, compressed_a);
+                }
                 real_encode(&pb, compressed_b)
             })
             .join();
@@ -398,7 +409,7 @@ pub fn run(ctx: &mut Ctx) -> (&'static str, String, bool) {
                 };
                 p.violation(
                     "C11/field-depends-on-previous-encode",
-                    format!("encoding [{lb}] gives {} on its own but {} right after encoding [{la}] on the same thread", len(&alone), len(&after)),
+                    format!("encoding [{lb}] gives {} on its own but {} right after {} [{la}] on the same thread", len(&alone), len(&after), if failing { "a write that ran out of room part-way through" } else { "encoding" }),
                     json!({"first": la, "second": lb, "mode_first": mode_name(compressed_a), "mode_second": mode_name(compressed_b)}),
                 );
             }
